@@ -1,21 +1,37 @@
 """Native counterexample search on the real code — used only to turn a failed Verus obligation
 (which carries no counterexample) into a replayable input.  It never decides anything by itself."""
 import os
-from .common import VERIF, BUILD, REPO, run
+import re
+from . import rustsrc
+from .common import VERIF, BUILD, REPO, run, offline_env
 
 
 def search_on_failure(rep, pid, obs):
     failed = [o for o in obs if o.status == 'failed']
     if not failed:
         return
+    crate = os.path.join(VERIF, 'native', pid)
+    if os.path.exists(os.path.join(crate, 'Cargo.toml.in')):
+        return _search_crate(rep, pid, crate, failed)
     src = os.path.join(VERIF, 'native', pid + '.rs')
     if not os.path.exists(src):
         return
     d = os.path.join(BUILD, 'native')
     os.makedirs(d, exist_ok=True)
     gen = os.path.join(d, pid + '_gen.rs')
+    text = open(src).read().replace('@REPO@', REPO)
+    # `//@EXTRACT <path relative to repo> <header regex>` => the item's text, copied verbatim
+    def _sub(m):
+        it = rustsrc.Source(os.path.join(REPO, m.group(1))).find(m.group(2).strip())
+        return it.src[it.hdr:it.close + 1]
+    try:
+        text = re.sub(r'^//@EXTRACT\s+(\S+)\s+(.+)$', _sub, text, flags=re.M)
+    except rustsrc.LostAnchor as e:
+        for o in failed:
+            o.detail += '\n[native search not possible: %s]' % e
+        return
     with open(gen, 'w') as f:
-        f.write(open(src).read().replace('@REPO@', REPO))
+        f.write(text)
     exe = os.path.join(d, pid)
     rc, out, err, secs, to = run(['rustc', '--edition', '2021', '-O', '-A', 'warnings', gen, '-o', exe], timeout=300)
     if rc != 0:
@@ -23,11 +39,40 @@ def search_on_failure(rep, pid, obs):
             o.detail += '\n[native search did not build: %s]' % err[-400:]
         return
     rc, out, err, secs, to = run([exe], timeout=300)
+    _apply(failed, out, secs, 'rustc %s && %s' % (src, exe), src)
+
+
+def _search_crate(rep, pid, crate, failed):
+    import shutil
+    d = os.path.join(BUILD, 'native', pid + '-crate')
+    if os.path.exists(d):
+        shutil.rmtree(d)
+    shutil.copytree(crate, d)
+    with open(os.path.join(d, 'Cargo.toml'), 'w') as f:
+        f.write(open(os.path.join(crate, 'Cargo.toml.in')).read().replace('@REPO@', REPO))
+    shutil.copy(os.path.join(REPO, 'Cargo.lock'), os.path.join(d, 'Cargo.lock'))
+    env = offline_env({'CARGO_TARGET_DIR': os.path.join(BUILD, 'native-target')})
+    rc, out, err, secs, to = run(['cargo', 'run', '--release', '--offline', '-q'], cwd=d, env=env, timeout=900)
+    if rc != 0:
+        for o in failed:
+            o.detail += '\n[native search did not build/run: %s]' % err[-400:]
+        return
+    _apply(failed, out, secs, 'cargo run --release (crate %s, path dependency on the real wit-bindgen-core)' % crate, crate)
+
+
+def _apply(failed, out, secs, how, src):
     cex = [l for l in out.splitlines() if l.startswith('COUNTEREXAMPLE')]
     for o in failed:
         if cex:
-            o.replay = {'input': cex[0], 'how': 'native bounded search on the real code: rustc %s && %s' % (src, exe),
+            o.replay = {'input': cex[0], 'how': 'native bounded search on the real code: ' + how,
                         'native_outcome': '\n'.join(cex[:5])}
             o.kind = 'property'
         else:
+            if o.kind == 'property' and any(x.kind == 'support' and x.function == o.function for x in failed):
+                # the proof of this clause leans on a representation invariant / lemma that no longer goes
+                # through, and an exhaustive small-scope run of the real code satisfies the clause: the proof
+                # strategy does not fit the code any more -> undecided, not an alarm.
+                o.status = 'undecided'
+                o.detail = ('property clause failed together with a support obligation of the same function and the native '
+                            'small-scope search found no failing input: proof no longer fits the code\n') + o.detail
             o.detail += '\n[native bounded search (%s) found no failing input in %.1fs: %s]' % (src, secs, out.strip()[-200:])
